@@ -38,3 +38,26 @@ From PKOCorr Require Import PhaseCorr PhaseMonitors C05Sound PhaseMonSound.
 Theorem C09_phase_monitor_sound : forall c : pcase, m09p (set_obs c (model_run c)) = true.
 Proof. exact m09p_sound. Qed.
 Print Assumptions C09_phase_monitor_sound.
+
+(** Delegated phases. REFUTED as stated (open finding F-C09, known_findings.json): the paused state reaches a
+    delegated phase only when the phase loop reaches it. Behind a phase whose probes fail the phase object stays
+    unpaused and the ObjectSetPhase controller writes an object listed in the paused ObjectSet. *)
+From PKO Require Import PhaseController DelegationProofs PauseFinding.
+Theorem C09_delegated_pause_refuted :
+  exists sw kind ns name s pname k,
+    find_set (sw_sets sw) kind ns name = Some s /\ os_life s = LPaused /\ is_active s /\
+    In k (map (spec_key s) (all_objects s)) /\
+    In k (member_writes (snd (fst (objectsetphase_pass FSamePhase false 1
+                                     (fst (fst (objectset_pass false sw kind ns name))) KObjectSetPhase ns pname)))).
+Proof. exact pause_behind_gate_refuted. Qed.
+Print Assumptions C09_delegated_pause_refuted.
+
+(** What holds (partial: only for the phases the loop gets past): whenever the remote phase reconciler gets past a
+    phase object, that object's spec.paused equals the ObjectSet's paused state afterwards - whatever its status
+    says - and a paused phase object's controller writes nothing (C09_paused_phase_owner_hands_off). *)
+Theorem C09_delegated_pause_partial :
+  forall sw s ph rem sw1 e1 rem1 active failed,
+    remote_reconcile sw s ph rem = (sw1, e1, rem1, RROk active failed) ->
+    exists cur, phase_obj_of sw1 s ph = Some cur /\ op_paused cur = lifecycle_eqb (os_life s) LPaused.
+Proof. exact paused_carried_step. Qed.
+Print Assumptions C09_delegated_pause_partial.
